@@ -2,8 +2,9 @@
 
 line   = 1 + number of line terminators that end at or before the offset
 column = 1 + distance from the end of the last such terminator
-An offset strictly inside a CR LF pair has no defined location (no token or
-error can start there) and is reported as None.
+For an offset strictly inside a CR LF pair that terminator is not yet complete
+and therefore not counted: the offset is the last column of its line (no token
+can start there, but callers may ask for any offset).
 """
 
 
@@ -31,8 +32,6 @@ def terminators(body):
 def location(body, offset):
     line, start = 1, 0
     for s, e in terminators(body):
-        if s < offset < e:
-            return None  # inside CR LF
         if e <= offset:
             line += 1
             start = e
